@@ -12,6 +12,9 @@ NAMES = ["a", "a.txt", "a-b", "A", "b", "ab", "a b", "é", "z", "0", "_x", "a.d"
 DIRS = ["a", "d", "a.d", "sub dir", "Z", "é", "a-b", "0", "b\\s", "disc..2", "..d", "a.."]
 
 
+LONG_DIRS = ["season-" + "x" * 80, "d" * 100, "é" * 60, "A long directory name, " * 4 + "end"]
+
+
 def boundary_sizes(pl):
     s = {0, 1, 2, B - 1, B, B + 1, pl - 1, pl, pl + 1, 2 * pl - 1, 2 * pl, 2 * pl + 1, 3 * pl, 3 * pl + B + 7,
          4 * pl, 5 * pl - B, pl // 2, pl + B, 2 * B - 1, 100}
@@ -65,6 +68,26 @@ def gen_tree(rng, pl, max_files=7, single_prob=0.15, empty_prob=0.18, max_total=
             tree[(d, rng.choice(NAMES))] = rng.randbytes(rng.choice([1, pl + 1, 2 * pl + 5]))
             tree[(sib,)] = rng.randbytes(rng.choice([3, pl + 2, pl - 1]))
             classes.add("full-path order != per-directory order")
+    r = rng.random()
+    if r < 0.10:
+        # a file whose relative path alone is longer than 255 bytes (every component stays below NAME_MAX, the whole path far
+        # below PATH_MAX): three or four levels of long directory names
+        comps = tuple(rng.choice(LONG_DIRS) for _ in range(rng.choice([3, 4]))) + (rng.choice(NAMES),)
+        tree[comps] = rng.randbytes(rng.choice([0, 5, pl + 1]))
+        classes.add("path longer than 255 bytes")
+    elif r < 0.14:
+        # a directory with a few hundred tiny entries
+        d = rng.choice(["wide", "many files"])
+        if not any(k[0] == d for k in tree):
+            for j in range(rng.choice([130, 260])):
+                tree[(d, "%04d.dat" % j)] = bytes([j % 251]) * (j % 4)
+            classes.add("directory with more than a hundred entries")
+    elif r < 0.18:
+        # a chain of forty nested directories
+        comps = tuple("n%d" % j for j in range(40)) + ("leaf.bin",)
+        if not any(k[0] == "n0" for k in tree):
+            tree[comps] = rng.randbytes(rng.choice([1, B + 1]))
+            classes.add("forty nested directories")
     if any(len(k) > 1 for k in tree):
         classes.add("nested")
     else:
